@@ -198,7 +198,7 @@ func runC14(c *CaseCtx) (res CaseResult) {
 		usedN := map[string]bool{}
 		usedT := map[reflect.Type]bool{}
 		for tries := 0; len(out) < n && tries < 50; tries++ {
-			l := xLabel{T: types[r.Intn(len(types))]}
+			l := xLabel{T: types[r.Intn(nTypes)]}
 			if form != FormPos {
 				if r.Intn(2) == 0 {
 					l.Name = pick(r, names)
@@ -550,7 +550,7 @@ func runC17(c *CaseCtx) (res CaseResult) {
 				desc += "*concErr(nil) "
 			}
 		default:
-			ti := r.Intn(len(types))
+			ti := r.Intn(nTypes)
 			conc := concreteFor(ti, r)
 			outT = append(outT, types[ti])
 			v := mkAs(ti, conc, int64(c.Idx*10+i+1))
@@ -972,7 +972,6 @@ func runC16(c *CaseCtx) (res CaseResult) {
 	res.Sample = det
 	return res
 }
-
 
 // runC17PanicFirst: fault injection — the first execution of a function
 // panics (the caller recovers); later calls must behave like calls: a result
